@@ -74,7 +74,7 @@ def main():
            for k, v in BOUNDED_PROPS.items()],
         checks=checks,
         notes='known findings (genuine defects recorded, with replays) and fixed defects in known_findings.json; fix: commits in /repo: '
-              '9c45089 bf3654a 2c9fa39 c36aa6e 3a3f466 0a0e585 e9f543d 16ff58a e84cc41 4366881 3465b67 4f2a424; seeded changes and catch matrix in seeded/ and DESIGN 9.5',
+              '9c45089 bf3654a 2c9fa39 c36aa6e 3a3f466 0a0e585 e9f543d 16ff58a e84cc41 4366881 3465b67 4f2a424 6714157 097ea28; seeded changes and catch matrix in seeded/ and DESIGN 9.5',
         not_applicable=[dict(property_id=k, reason=v) for k, v in sorted(NOT_BUILT.items())],
     )
     json.dump(m, open('MANIFEST.json', 'w'), indent=1)
